@@ -244,13 +244,13 @@ func epsSMX509() []*epT {
 		dekSeeds = append(dekSeeds, S(p.name+"-dekinfo", func() []byte { return []byte(pemBlockOf(p).Headers["DEK-Info"]) }))
 	}
 	eps = append(eps,
-		&epT{name: "smx509.DecryptPEMBlock[PEM text]", fast: true, seeds: textSeeds, pairLimit: -1,
+		&epT{name: "smx509.DecryptPEMBlock[PEM-text]", fast: true, seeds: textSeeds, pairLimit: -1,
 			call: func(x *cx, in []byte) (ok bool) {
 				blk, _ := pem.Decode(in)
 				if blk == nil {
 					return false
 				}
-				x.g("smx509.DecryptPEMBlock[PEM text]", func() {
+				x.g("smx509.DecryptPEMBlock[PEM-text]", func() {
 					smx509.IsEncryptedPEMBlock(blk)
 					_, err := smx509.DecryptPEMBlock(blk, password)
 					ok = err == nil
